@@ -78,10 +78,12 @@ def mutations(kind, obj):
     if kind == "rec":
         ms.append(("add-attribute", lambda: obj.add_attributes([(mm("k2"), "mut")])))
         ms.append(("add-type", lambda: obj.add_asserted_type(mm("T"))))
+        ms.append(("add-value-to-existing-attribute", lambda: _second_value(obj)))
         return ms
     doc = obj
     for i, r in enumerate(all_records(doc)):
         ms.append(("add-attribute[%d]" % i, (lambda r=r: r.add_attributes([(mm("k2"), "mut")]))))
+        ms.append(("add-value-to-existing-attribute[%d]" % i, (lambda r=r: _second_value(r))))
     ms.append(("add-record", lambda: doc.entity(mm("new"))))
     ms.append(("add-record-default-ns", lambda: doc.entity(QualifiedName(Namespace("", MM), "new"))))
     ms.append(("add_namespace", lambda: doc.add_namespace("mm", MM)))
@@ -93,6 +95,14 @@ def mutations(kind, obj):
         ms.append(("bundle[%d].add_namespace" % j, (lambda b=b: b.add_namespace("mm", MM))))
         ms.append(("bundle[%d].set_default_namespace" % j, (lambda b=b: b.set_default_namespace(MM))))
     return ms
+
+
+def _second_value(rec):
+    """a further value under every non-formal attribute name the record already carries
+    (the container of values of that name exists already - the interesting case for sharing)"""
+    names = [a for a, _ in rec.extra_attributes]
+    rec.add_attributes([(a, "second-value") for a in dict.fromkeys(names)] or [(mm("k2"), "mut")])
+    rec.add_asserted_type(mm("T2"))
 
 
 def obs_of(kind, obj):
